@@ -263,9 +263,18 @@ var (
 // StdServerCert returns (creating it on first use) a server certificate under StdCA for the given
 // DNS names, with an ECDSA P-256 or an RSA key.
 func (p *PKI) StdServerCert(names []string, rsaKey bool) gmtls.Certificate {
+	return p.stdServerCert(names, rsaKey, false)
+}
+
+// StdSelfSignedServerCert is the same certificate signed by its own key (no trusted issuer).
+func (p *PKI) StdSelfSignedServerCert(names []string, rsaKey bool) gmtls.Certificate {
+	return p.stdServerCert(names, rsaKey, true)
+}
+
+func (p *PKI) stdServerCert(names []string, rsaKey, selfSigned bool) gmtls.Certificate {
 	extraMu.Lock()
 	defer extraMu.Unlock()
-	k := fmt.Sprintf("%v/%v", names, rsaKey)
+	k := fmt.Sprintf("%v/%v/%v", names, rsaKey, selfSigned)
 	if c, ok := extraCerts[k]; ok {
 		return c
 	}
@@ -281,7 +290,11 @@ func (p *PKI) StdServerCert(names []string, rsaKey bool) gmtls.Certificate {
 	}
 	t := &stdx509.Certificate{SerialNumber: big.NewInt(int64(300 + len(extraCerts))), Subject: pkix.Name{CommonName: "std leaf " + names[0]}, NotBefore: time.Date(2020, 1, 1, 0, 0, 0, 0, time.UTC), NotAfter: time.Date(2030, 1, 1, 0, 0, 0, 0, time.UTC),
 		DNSNames: names, KeyUsage: ku, ExtKeyUsage: []stdx509.ExtKeyUsage{stdx509.ExtKeyUsageServerAuth}}
-	der, err := stdx509.CreateCertificate(rand.Reader, t, p.StdCA, pub, p.StdCAKey)
+	parent, parentKey := p.StdCA, crypto.PrivateKey(p.StdCAKey)
+	if selfSigned {
+		parent, parentKey = t, priv
+	}
+	der, err := stdx509.CreateCertificate(rand.Reader, t, parent, pub, parentKey)
 	if err != nil {
 		panic(err)
 	}
